@@ -604,7 +604,7 @@ def assemble_unit(unit_dir, repo=None, canary=False):
     canary_fns = []
     body = []
     for src in unit.get("source", []):
-        path = os.path.join(repo, src["file"])
+        path = os.path.join(VERIF if src.get("root") == "verif" else repo, src["file"])   # root = "verif": a reference function kept in /verif
         if not os.path.exists(path):
             raise Undecided("lost anchor: file %s does not exist" % src["file"])
         data, items = extract(path)
